@@ -41,6 +41,8 @@ def gen_trace(seed, n_calls=45):
     # are 14:30-21:00 UTC all year
     t0 = (DAY0 + (182 if seed % 2 else 0) + rng.randint(0, 6)) * 1440 + rng.choice([0, 870, 600])
     quotes = dict((a, rand_quote(rng)) for a in ASSETS)
+    cur = dict(quotes)
+    rng2 = random.Random(seed * 31 + 7)
     fee = rand_fee(rng)
     ob = Observer()
     evs = []
@@ -92,10 +94,23 @@ def gen_trace(seed, n_calls=45):
                     t = now + rng.choice([0, 1, 30, 389, 390, 391, 1440, 2880])
                 ev = do(dict(op="update", t=t))
                 now = ev["post"]["now"]
+                # corrupt data: now and then a HELD asset is quoted at a negative (or zero) mid; the next clock update must
+                # be refused as a whole; then the quote is repaired.  (Second stream: the other draws stay as they were.)
+                if rng2.random() < 0.12:
+                    pr = rig.project()
+                    heldnow = sorted(set(a for p in created for a in pr["hold"].get(p, {})))
+                    if heldnow:
+                        a = rng2.choice(heldnow)
+                        bad = rng2.choice([dict(bid=-2250, ask=-1750), dict(bid=-250, ask=250), dict(bid=-40001, ask=-39999)])
+                        do(dict(op="price", asset=a, bid=bad["bid"], ask=bad["ask"]))
+                        ev = do(dict(op="update", t=now + rng2.choice([0, 1, 1440])))
+                        now = ev["post"]["now"]
+                        do(dict(op="price", asset=a, bid=cur[a]["bid"], ask=cur[a]["ask"]))
             elif r < 0.67:                                 # price move
                 a = rng.choice(ASSETS)
                 q = rand_quote(rng)
                 do(dict(op="price", asset=a, bid=q["bid"], ask=q["ask"]))
+                cur[a] = q
             elif r < 0.80:                                 # transfers
                 k = rng.random()
                 pr = rig.project()
